@@ -261,7 +261,9 @@ def run_codecs(ev, state, coords, job):
     bad(f'covariate dataset round trip raised {type(e).__name__}: {str(e)[:160]}')
   # 9. state written / read under an external naming convention
   try:
-    if job['family'] in ('dry', 'time', 'moist', 'cloud'):
+    g9 = coords.horizontal
+    if job['family'] in ('dry', 'time', 'moist', 'cloud') and (
+        tuple(g9.nodal_shape) != tuple(g9.modal_shape)):
       d = {k: (dict(v) if isinstance(v, dict) else v) for k, v in state.asdict().items()}
       d = jax.tree_util.tree_map(np.asarray, d)
       renaming = {'vo': 'vorticity', 'dv': 'divergence', 'tv': 'temperature_variation',
